@@ -7,6 +7,10 @@ b. in the working-copy module, Store::write_file has one caller and working-copy
 c. update side: write_conflict always converts before copying; write_file converts exactly on the
    apply_eol_conversion edge; the flag is const true for file contents and const false only for the
    symlink-as-file fallback
+d. mode table inside eol.rs: snapshot converts (to LF) exactly for Input and InputOutput, update converts (to CRLF)
+   exactly for InputOutput and passes stored bytes through for None and Input; on both sides the binary probe selects
+   PassThrough on its true edge, and the probed prefix is chained back in front of the rest before conversion;
+   convert_eol returns its input untouched for PassThrough
 """
 from jjv.lib import (bodies_with, bool_edges, name_matches, op_place, show, strip, term_calls, walk)
 
@@ -32,6 +36,7 @@ def run(ctx):
     rule_a(ctx)
     rule_b(ctx)
     rule_c(ctx)
+    rule_d(ctx)
 
 
 def _has_conv_of_open(t, conv):
@@ -157,3 +162,84 @@ def rule_c(ctx):
                    f"{'symlink target text' if is_symlink_text else 'file contents'} written with apply_eol_conversion="
                    f"{show(flag)}", where=c.where())
         ctx.anchor("C29.c", "write_file call sites", vals, 2)
+
+
+def rule_d(ctx):
+    F = ctx.F
+    EOL = "jj_lib::eol::"
+    MODE = EOL + "EolConversionMode"
+    TE = EOL + "TargetEol"
+    table = {
+        SNAPCONV: ({"None": "pass", "Input": "Lf", "InputOutput": "Lf"}, "Lf"),
+        UPDCONV: ({"None": "pass", "Input": "pass", "InputOutput": "Crlf"}, "Crlf"),
+    }
+    for root, (expect, target) in table.items():
+        bs = [b for b in F.family_bodies(root) if b.calls_to(EOL + "convert_eol")]
+        if not ctx.anchor("C29.d", f"{root} body", bs, 1):
+            continue
+        b = bs[0]
+        ctx.fn_seen(b.id)
+        sl = F.slicer(b.id)
+        sw = [(bb, b.discr_source(bb)) for bb, _ in b.switches()]
+        sw = [(bb, ds) for bb, ds in sw if ds and ds[1] == MODE]
+        if not ctx.anchor("C29.d", f"{root}: switch on EolConversionMode", sw, 1):
+            continue
+        bb, ds = sw[0]
+        conv = b.calls_to(EOL + "convert_eol")
+        probe = b.calls_to(EOL + "TargetEolStrategy::probe_for_binary")
+        aggs = {}
+        for i, blk in enumerate(b.blocks):
+            if blk.get("c"):
+                continue
+            for st in blk["s"]:
+                if st["r"]["k"] == "agg" and st["r"].get("adt") == TE:
+                    aggs.setdefault(st["r"]["v"], set()).add(i)
+        variants = set(ds[2].values())
+        ctx.ob("C29.d/mode-table-complete", root, variants == set(expect), f"variants {sorted(variants)}" if variants == set(expect)
+               else f"EolConversionMode has variants {sorted(variants)} but the rule table knows {sorted(expect)}")
+        for v, want in expect.items():
+            e = b.variant_edge(bb, v)
+            others = {b.variant_edge(bb, o) for o in expect if b.variant_edge(bb, o) != e}
+            reach = b.reachable_from([e], avoid=others) if e is not None else set()
+            converts = any(c.bb in reach for c in conv)
+            tgt = {n for n, blks in aggs.items() if blks & reach and n != "PassThrough"}
+            got = "pass" if not converts else "/".join(sorted(tgt)) or "?"
+            ctx.ob("C29.d/mode-table", f"{root.split('::')[-1]}|{v}", got == want,
+                   f"{v}: {'stored bytes pass through unchanged' if want == 'pass' else 'text converted to ' + want}" if got == want
+                   else f"for mode {v} {root.split('::')[-1]} does '{got}' but the setting means '{want}'")
+        # binary probe polarity: PassThrough only on the probe's true edge, the conversion target only on its false edge
+        okp = False
+        if probe:
+            pc = [c for c in probe if c.decl != "futures::Future::poll"]
+            for bb2, t in b.switches():
+                p = op_place(t["o"])
+                if p is None:
+                    continue
+                term = strip(sl.place(p, at=bb2))
+                if any(x[1] == EOL + "TargetEolStrategy::probe_for_binary" for x in term_calls(term)) and b.locals[p[0]] == "bool":
+                    e_true, e_false = b.edge_node(bb2, "else"), b.edge_node(bb2, 0)
+                    rt, rf = b.reachable_from([e_true], avoid=[e_false]), b.reachable_from([e_false], avoid=[e_true])
+                    pt, tg = aggs.get("PassThrough", set()), aggs.get(target, set())
+                    okp = bool(pt) and bool(tg) and pt <= rt and not (pt & rf - rt) and tg <= rf and not (tg & rt - rf)
+        ctx.ob("C29.d/binary-passes-through", root, okp, f"probe_for_binary()==true selects PassThrough, false selects {target}"
+               if okp else "the binary probe's polarity is wrong or its result does not select PassThrough")
+        # the probed prefix is put back
+        t = sl.call_arg(conv[0], 0)
+        names = {x[1] for x in term_calls(t)}
+        okc = any(n.endswith("::chain") for n in names) and any(n.endswith("Cursor::<T>::new") or n.endswith("Cursor::new") for n in names)
+        ctx.ob("C29.d/probed-prefix-chained-back", root, okc, "convert_eol(Cursor::new(peek).chain(contents), ..)" if okc else
+               f"the bytes consumed by the binary probe are not put back in front of the stream: {show(t)[:120]}")
+    cb = [b for b in F.family_bodies(EOL + "convert_eol")]
+    okpt = False
+    for b in cb:
+        for bb, _ in b.switches():
+            ds = b.discr_source(bb)
+            if ds and ds[1] == TE:
+                e = b.variant_edge(bb, "PassThrough")
+                others = {b.variant_edge(bb, o) for o in ("Lf", "Crlf")}
+                reach = b.reachable_from([e], avoid=others) if e is not None else set()
+                reads = [c for c in b.calls if not c.cleanup and name_matches(c.res or c.decl or "", "re:read_to_end$|extend_from_slice$")]
+                okpt = e is not None and not any(c.bb in reach for c in reads)
+                ctx.fn_seen(b.id)
+    ctx.ob("C29.d/passthrough-is-identity", EOL + "convert_eol", okpt, "PassThrough returns the input stream without reading it"
+           if okpt else "convert_eol no longer returns the input untouched for PassThrough (binary files are rewritten)")
